@@ -241,7 +241,8 @@ def run_check(prop, tier, verif_seed, n_runs, budget_s, workers, args):
         "violations": n_unlisted,
     }
     try:
-        evmod.write(os.path.join(HOME, "evidence", prop + ".json"), ev)
+        evmod.write(os.path.join(os.environ.get("VERIF_EVIDENCE_DIR") or os.path.join(HOME, "evidence"),
+                                 prop + ".json"), ev)
     except Exception as e:
         print("HARNESS-ERROR property=%s evidence invalid: %s" % (prop, e))
         return 2
